@@ -114,6 +114,23 @@ pub fn build_cert(spec: &CertSpec, subject_key: &SigningKey, sign_key: &SigningK
     Certificate { tbs_certificate: tbs, signature_algorithm: alg, signature: BitString::from_bytes(sig.to_der().as_bytes()).unwrap() }
 }
 
+/// the same certificate with its public key replaced by a P-384 one (a well-formed SPKI for secp384r1 around the given point
+/// bytes) and its subject key identifier set accordingly; signed by `sign_key`
+pub fn with_p384_key(spec: &CertSpec, point: &[u8], sign_key: &SigningKey) -> (Certificate, Vec<u8>) {
+    let ski = Sha1::digest(point).to_vec();
+    let mut spec = CertSpec { subject: spec.subject.clone(), issuer: spec.issuer.clone(), not_before: spec.not_before, not_after: spec.not_after, serial: spec.serial,
+        exts: spec.exts.iter().map(|e| ExtSpec { oid: e.oid.clone(), critical: e.critical, value: e.value.clone() }).collect() };
+    for e in spec.exts.iter_mut() { if e.oid == OID_SKI { *e = ext_ski(&ski); } }
+    let template = build_cert(&spec, sign_key, sign_key);
+    let mut tbs = template.tbs_certificate.clone();
+    tbs.subject_public_key_info = SubjectPublicKeyInfoOwned {
+        algorithm: AlgorithmIdentifierOwned { oid: const_oid::ObjectIdentifier::new_unwrap("1.2.840.10045.2.1"),
+            parameters: Some(der::Any::from(const_oid::ObjectIdentifier::new_unwrap("1.3.132.0.34"))) },
+        subject_public_key: BitString::from_bytes(point).unwrap() };
+    let sig: Signature = sign_key.sign(&tbs.to_der().unwrap());
+    (Certificate { tbs_certificate: tbs, signature_algorithm: template.signature_algorithm.clone(), signature: BitString::from_bytes(sig.to_der().as_bytes()).unwrap() }, ski)
+}
+
 pub struct Pki {
     pub iaca_key: SigningKey, pub iaca: Certificate,
     pub ds_key: SigningKey, pub ds: Certificate,
